@@ -139,15 +139,38 @@ var cfgWild = []int{0, 0, 1, 2, 3, 5, 8, 9, 16, 17, 23, 24, 25, 128, 129, -1, -7
 func genWildCfg(r *rng) (string, string) {
 	kind := allKinds[r.intn(len(allKinds))]
 	c := pcfg{kind: kind, f: map[string]int{}}
+	wild := 55
+	if r.chance(60) {
+		wild = 6 // mostly valid configurations
+	}
 	for _, k := range kindFields[kind] {
 		if k == "Cost" {
 			c.cost = r.pickS("", "XZCost", "x", "XZCost", "xzcost")
+			if wild < 10 {
+				c.cost = r.pickS("", "XZCost")
+			}
 			continue
 		}
-		if r.chance(55) {
+		if r.chance(wild) {
 			c.f[k] = cfgWild[r.intn(len(cfgWild))]
 		} else {
 			c.f[k] = r.rangeIn(0, 12)
+			if wild < 10 {
+				switch k {
+				case "BufferSize":
+					c.f[k] = r.rangeIn(1, 64)
+				case "ShrinkSize":
+					c.f[k] = r.rangeIn(0, max(0, c.f["BufferSize"]-1))
+				case "InputLen", "InputLen1":
+					c.f[k] = r.rangeIn(0, 7)
+				case "InputLen2":
+					c.f[k] = r.pick(0, r.rangeIn(c.f["InputLen1"]+1, 8))
+				case "MinMatchLen":
+					c.f[k] = r.pick(0, 2, 3, 4)
+				case "MaxMatchLen":
+					c.f[k] = r.pick(0, 4, 8, 273)
+				}
+			}
 		}
 	}
 	// keep allocations of accepted configurations moderate
